@@ -341,3 +341,63 @@ func zzH_c10_pool_identity() {
 	}
 	vReach("end")
 }
+
+// H10-keyid-hint: the authority key identifier of a certificate is a hint for finding its
+// issuer, not a filter: every certificate of the pool with the issuer's name that signed the
+// child is found, whether or not it carries the matching subject key identifier, and a
+// certificate with the matching identifier but another name or no valid signature is not.
+//
+//verif:property C10
+//verif:expect-reach end
+//verif:bound a pool of two CA certificates, each with the issuer's name or another name, with the child's key identifier, another one or none; the child with or without an authority key identifier; the signature relation symbolic
+//verif:outside signature algorithms ((*Certificate).CheckSignature stubbed by the relation)
+//verif:stub (*github.com/tjfoc/gmsm/x509.Certificate).CheckSignature zzStubPKISig
+//verif:unwind 40
+func zzH_c10_keyid_hint() {
+	const nI, nO = 0x21, 0x22
+	for i := 1; i <= 3; i++ {
+		for j := 1; j <= 3; j++ {
+			zzPKISig[i][j] = vBool("sig")
+		}
+	}
+	kid := func(name string) []byte {
+		switch vChoice(name, 3) {
+		case 1:
+			return []byte{0xA1}
+		case 2:
+			return []byte{0xB2}
+		}
+		return nil
+	}
+	child := &Certificate{Raw: []byte{1}, RawTBSCertificate: []byte{1}, RawSubject: []byte{0x30}, RawIssuer: []byte{nI}, Version: 3, PublicKeyAlgorithm: ECDSA}
+	if vChoice("child.aki", 2) == 1 {
+		child.AuthorityKeyId = []byte{0xA1}
+	}
+	mk := func(id byte, tag string) *Certificate {
+		c := &Certificate{Raw: []byte{id}, RawTBSCertificate: []byte{id}, Version: 3, PublicKeyAlgorithm: ECDSA,
+			BasicConstraintsValid: true, IsCA: true, MaxPathLen: -1}
+		c.RawSubject = []byte{[]byte{nI, nO}[vChoice(tag+".name", 2)]}
+		c.SubjectKeyId = kid(tag + ".ski")
+		return c
+	}
+	A, B := mk(2, "A"), mk(3, "B")
+	pool := NewCertPool()
+	pool.AddCert(A)
+	pool.AddCert(B)
+	parents, _, _ := pool.findVerifiedParents(child)
+	for idx, p := range []*Certificate{A, B} {
+		isIssuer := p.RawSubject[0] == nI && zzPKISig[1][int(p.Raw[0])]
+		found := false
+		for _, k := range parents {
+			found = found || pool.certs[k] == p
+		}
+		_ = idx
+		if isIssuer {
+			vAssert("genuine-issuer-found-whatever-its-key-identifier", found)
+		}
+		if found {
+			vAssert("found-parent-signed-the-child", zzPKISig[1][int(p.Raw[0])])
+		}
+	}
+	vReach("end")
+}
